@@ -117,7 +117,8 @@ def evaluate(case, obs):
         out.label("compressed")
     if any(b.get("kind") in ("commit", "abort") for lg in case["logs"] for b in lg["batches"]):
         out.label("control_batch")
-    if any(b.get("gone") or b.get("tail") or b.get("skip") or b.get("kind") == "empty" for lg in case["logs"] for b in lg["batches"]):
+    if any(b.get("gone") or b.get("tail") or b.get("skip") or b.get("deltas") or b.get("kind") == "empty"
+           for lg in case["logs"] for b in lg["batches"]):
         out.label("compaction_gaps")
     out.label("mode_" + case["cfg"].get("mode", "assign"))
     out.info = {"delivered": {k: len(v) for k, v in delivered.items()}, "events": len(obs.events),
@@ -146,9 +147,12 @@ def batch_specs(draw, st, n_max=9, allow_txn=False):
                 "pad": draw(st.sampled_from([0, 0, 30, 200]))}
         if kind in ("commit", "abort"):
             spec["pid"] = 7
-        if draw(st.integers(0, 3)) == 0 and fmt == "v2":
+        if draw(st.integers(0, 3)) == 0:
+            # compaction gaps inside a batch; a compressed v0/v1 wrapper keeps the surviving inner messages' own
+            # (absolute / relative) offsets and the offset of its last message
             spec["deltas"] = draw(st.lists(st.integers(1, 3), min_size=1, max_size=3))
-            spec["tail"] = draw(st.integers(0, 2))
+            if fmt == "v2":
+                spec["tail"] = draw(st.integers(0, 2))
         if draw(st.integers(0, 5)) == 0:
             spec["skip"] = draw(st.integers(1, 4))
         if draw(st.integers(0, 9)) == 0 and fmt == "v2":
@@ -182,6 +186,10 @@ def strategy():
                "retry_backoff_ms": draw(st.sampled_from([10, 50])),
                "metadata_max_age_ms": draw(st.sampled_from([500, 5000])),
                "max_poll_records": draw(st.sampled_from([None, None, 1, 3]))}
+        if cfg["request_timeout_ms"] <= cfg["fetch_max_wait_ms"]:
+            # every idle long-poll would "time out" and tear its connection down (with the metadata request queued
+            # behind it): not a configuration a Kafka client is meant to run with (the Java client rejects it)
+            cfg["request_timeout_ms"] = 1000
         idxs = st.lists(st.integers(0, nparts - 1), max_size=nparts)
         tasks = []
         for ti in range(draw(st.integers(1, 3))):
@@ -257,6 +265,7 @@ def strategy():
                 "lat": draw(st.lists(st.sampled_from([0.0005, 0.001, 0.003, 0.01, 0.02]), min_size=1, max_size=4)),
                 "chunks": draw(st.lists(st.sampled_from([0, 0, 1, 5, 13, 64]), min_size=1, max_size=4)),
                 "rng_seed": draw(st.integers(0, 2 ** 31)),
+                "debug_log": draw(st.integers(0, 7)) == 0,
                 "drain": draw(st.sampled_from(["getmany", "getmany", "getone"]))}
     return cases()
 
